@@ -176,6 +176,7 @@ CLASSES = {
 # attribute / method access on statically untyped values (e.g. elements of a locally built list): node vocabulary
 ANY_ATTRS = dict(NODE_ATTRS)
 ANY_ATTRS.update({"__cause__": ANY, "partial_state": ANY, "_partial_state": ANY, "pause_info": ANY, "error": ANY, "status": ANY})
+ANY_ATTRS.update({"kind": STR, "old": STR, "new": STR, "batch_id": ANY})  # RenameEntry fields read from an untyped element
 ANY_METHODS = dict(NODE_METHODS)
 ANY_METHODS.update({
     # event processors (user code): may raise anything; the async variants are coroutine functions
@@ -206,6 +207,10 @@ OPAQUE = {
     # graph/validation.py:_values_equal (assumed contract A4): total (catches ValueError/TypeError itself) and a pure
     # function of its two arguments; NOT assumed reflexive, symmetric or transitive
     "_values_equal": {"raises": [], "returns": BOOL, "pure": True},
+    # nodes/_rename.py:build_reverse_rename_map (assumed contract A4; its functional behaviour over rename HISTORIES is
+    # decided by the bounded C06 harness only): total, returns a fresh dict[str, str] whose content is a deterministic
+    # function of (history list, kind); the history list of a published node is never mutated
+    "build_reverse_rename_map": {"raises": [], "returns": DICT(STR, STR), "pure_content": "dict"},
 }
 
 
